@@ -4,7 +4,7 @@ import z3
 
 from .values import *
 from .program import BuiltinClass, ClassInfo
-from .interp import OutOfSubset, PyRaise, is_int_const, v_eq
+from .interp import PathEnd, OutOfSubset, PyRaise, is_int_const, v_eq
 
 
 def _const_int(v):
@@ -311,6 +311,46 @@ def call_extern(I, ref, args, kwargs, fr):
                 raise PyRaise(I.builtin_exc('binascii.Error', VStr('Odd-length string')))
             return VSeq(r.t, 'bytes')
         raise OutOfSubset('unhexlify(%r)' % (v,))
+    if name in ('struct.pack', 'struct.unpack'):
+        # single-field big-endian formats only: >B >H >I >Q (unsigned) and >b >h >i >q (two's complement).  A format
+        # held in a field is enumerated over these eight (one path each); anything else is outside the subset.
+        FM = {'>B': (1, False), '>H': (2, False), '>I': (4, False), '>Q': (8, False),
+              '>b': (1, True), '>h': (2, True), '>i': (4, True), '>q': (8, True)}
+        fmt = args[0]
+        if not isinstance(fmt, VStr):
+            raise OutOfSubset('struct format %r' % (fmt,))
+        if z3.is_string_value(fmt.t):
+            f_ = fmt.t.as_string()
+        else:
+            names_ = sorted(FM)
+            k_ = I.path.choose(len(names_) + 1, 'struct.fmt')
+            if k_ == len(names_):
+                I.path.assume(z3.And([fmt.t != z3.StringVal(n_) for n_ in names_]))
+                if not I.path.feasible(z3.BoolVal(True)):
+                    raise PathEnd()
+                raise OutOfSubset('struct format outside >B >H >I >Q >b >h >i >q')
+            f_ = names_[k_]
+            I.path.assume(fmt.t == z3.StringVal(f_))
+            if not I.path.feasible(z3.BoolVal(True)):
+                raise PathEnd()
+        if f_ not in FM:
+            raise OutOfSubset('struct format %r' % f_)
+        n_, signed_ = FM[f_]
+        if name == 'struct.pack':
+            x = I.as_int(args[1])
+            lo_, hi_ = (-(1 << (8 * n_ - 1)), (1 << (8 * n_ - 1)) - 1) if signed_ else (0, (1 << (8 * n_)) - 1)
+            if not fr.spec and not I.path.branch(z3.And(x >= lo_, x <= hi_), 'struct.pack range'):
+                raise PyRaise(I.builtin_exc('struct.error', VStr('argument out of range')))
+            r = I.call_spec('be_bytes', VInt(x), VInt(n_))
+            I.path.assume(I.truth(I.call_spec('all_bytes', VSeq(r.t, 'list'))))
+            return VSeq(r.t, 'bytes')
+        b = args[1]
+        if not isinstance(b, VSeq):
+            raise OutOfSubset('struct.unpack of %r' % (b,))
+        if not fr.spec and not I.path.branch(z3.Length(b.t) == n_, 'struct.unpack size'):
+            raise PyRaise(I.builtin_exc('struct.error', VStr('unpack requires a buffer of %d bytes' % n_)))
+        v = I.call_spec('tc_val' if signed_ else 'be_val', VSeq(b.t, 'list'))
+        return VTuple([VInt(I.as_int(v))])
     if name in BuiltinClass.HIER:
         return VObj(BuiltinClass(name), {'args': VTuple(args)})
     if name == 'math.isnan':
